@@ -4,6 +4,7 @@ package main
 import (
 	"bytes"
 	"fmt"
+	"math"
 	"os"
 	"unsafe"
 
@@ -58,8 +59,16 @@ func algebra(r *report.Run) (evals int64, distinct int) {
 		b []byte
 	}
 	var eps []ep
-	for _, t := range types {
-		for _, a := range as {
+	// endpoint types are plain int64 numbers: the extremes too (with a handful of addresses each,
+	// enough for every order/equality clause to be exercised across types far apart)
+	few := [][]byte{{}, {0}, {1}, {0, 1}, {0xff}, {1, 0, 0, 0}}
+	extreme := []gopacket.EndpointType{math.MaxInt64, math.MinInt64, -2, math.MaxInt64 - 1, 1 << 62}
+	for ti, t := range append(append([]gopacket.EndpointType(nil), types...), extreme...) {
+		set := as
+		if ti >= len(types) {
+			set = few
+		}
+		for _, a := range set {
 			in := append([]byte(nil), a...)
 			e := gopacket.NewEndpoint(t, in)
 			for i := range in {
@@ -237,6 +246,27 @@ func layerFlows(c dspace.Case, w *enum.Worker) {
 				w.Violation("c17|layer-flow-not-the-wire-addresses|"+l.LayerType().String(), fmt.Sprintf("layer %d (%v): flow %v but the header bytes say src=%x dst=%x", idx, l.LayerType(), f, ct[sp.so:sp.so+sp.sl], ct[sp.do:sp.do+sp.dl]))
 				continue
 			}
+			// the flow of a decoded layer is a value: writing that layer into a serialize buffer and
+			// using the buffer for something else afterwards does not change it
+			if sl, ok := l.(gopacket.SerializableLayer); ok {
+				func() {
+					defer func() { recover() }() // serializer panics are C07's subject
+					b := gopacket.NewSerializeBuffer()
+					if sl.SerializeTo(b, gopacket.SerializeOptions{}) == nil {
+						n := len(b.Bytes())
+						b.Clear()
+						// the same number of bytes again: they land in the memory the layer was written to
+						if x, err := b.PrependBytes(n); err == nil {
+							for i := range x {
+								x[i] = 0xEE
+							}
+						}
+						if f3, _ := flowOf(l); f3 != f {
+							w.Violation("c17|layer-flow-changes-after-serializing|"+l.LayerType().String(), fmt.Sprintf("layer %d (%v): flow %v before, %v after the layer was written into a buffer that was then reused", idx, l.LayerType(), f, f3))
+						}
+					}
+				}()
+			}
 			// the other direction of the conversation: swap the address bytes in the input
 			off := int(uintptr(unsafe.Pointer(unsafe.SliceData(ct))) - uintptr(unsafe.Pointer(unsafe.SliceData(in))))
 			if off < 0 || off+len(ct) > len(in) {
@@ -276,7 +306,7 @@ func main() {
 		r.Coverage["evaluations"] = ev
 	}
 	enum.Main(r, phases)
-	r.Coverage["rule"] = "algebra: 5 endpoint types x 126 address byte strings (all strings of length 0..3 over {0,1,0xff}; lengths 4,6,15,16 with every single-position variation): all ordered pairs (equality <=> type and bytes, map-key behaviour, strict total order, FlowFromEndpoints/Endpoints/NewFlow/Reverse identities, FastHash symmetry, type-mismatch error) and all triples (transitivity); 17-byte addresses must be refused. layer-flows: every decoded layer exposing a flow in the deviation<=1 neighbourhoods: for Ethernet, IPv4, IPv6, TCP, UDP, UDPLite, SCTP the flow's raw addresses must equal the address bytes of the layer's own header, and the packet with those bytes swapped must yield the reversed flow with the same FastHash. distinct_nontrivial = distinct (layer type, endpoint type) pairs seen plus ... see counters."
+	r.Coverage["rule"] = "algebra: 5 endpoint types x 126 address byte strings plus 5 extreme type numbers (MaxInt64, MinInt64, -2, MaxInt64-1, 2^62) x 6 addresses (all strings of length 0..3 over {0,1,0xff}; lengths 4,6,15,16 with every single-position variation): all ordered pairs (equality <=> type and bytes, map-key behaviour, strict total order, FlowFromEndpoints/Endpoints/NewFlow/Reverse identities, FastHash symmetry, type-mismatch error) and all triples (transitivity); 17-byte addresses must be refused. layer-flows: every decoded layer exposing a flow in the deviation<=1 neighbourhoods: for Ethernet, IPv4, IPv6, TCP, UDP, UDPLite, SCTP the flow's raw addresses must equal the address bytes of the layer's own header, the packet with those bytes swapped must yield the reversed flow with the same FastHash, and the flow must not change after the layer was written into a serialize buffer that is then reused. distinct_nontrivial = distinct (layer type, endpoint type) pairs seen plus ... see counters."
 	r.Assumptions = []string{"header layouts of Ethernet/IPv4/IPv6/TCP/UDP/UDPLite/SCTP (address offsets) are the trusted reference for the layer-flow clause", "the layer at which decoding failed is excluded (it may be partially filled by design)"}
 	r.Finish()
 }
